@@ -22,7 +22,7 @@ D_C07_Notif_OpenConfirmUnexpected D_C07_Notif_EstablishedOpen D_C07_Notif_Unsupp
 D_C07_Notif_KeepaliveLength D_C07_Notif_ManualStopEarly D_C07_Notif_OpenWhileIdle D_C07_Notif_NoSpurious
 D_C07_TimerInstant D_C07_Timer_OpenConfirm D_C07_NoRibEffectBeforeEstablished D_C07_ReportedMatchesReal""".split()
 
-FINDING_LABELS = {"OCUnexpected", "EstOpen", "Spurious", "TimerOC", "ManualStopEarly", "UnsupOpt", "KaLen", "IdleOpen",
+FINDING_LABELS = {"TimerOC", "ManualStopEarly", "IdleOpen",
                   "Collision", "Reported"}
 CHUNK = 150
 PROBE = 20
